@@ -51,11 +51,15 @@ Definition id_str (acc : N) (s : option str) : N :=
   match s with Some t => fold_left id_step t acc | None => acc end.
 Definition id_hashes (acc : N) (d : option (list N)) : N :=
   match d with Some l => fold_left id_step l acc | None => acc end.
+(* the sequence of symbols fed to the hash after the mask: each optional section after the modifier
+   is introduced by its own marker 1..4 (since /repo b71a5fe) *)
+Definition sec {A} (marker : N) (o : option (list A)) (inj : A -> N) : list N :=
+  match o with Some l => marker :: map inj l | None => [] end.
+Definition id_symbols (modifier : option str) (filter hostname : option str)
+           (doms notdoms : option (list N)) : list N :=
+  (match modifier with Some t => t | None => [] end)
+  ++ sec 1 doms (fun x => x) ++ sec 2 notdoms (fun x => x)
+  ++ sec 3 filter (fun x => x) ++ sec 4 hostname (fun x => x).
 Definition compute_filter_id (modifier : option str) (mask : N) (filter hostname : option str)
            (doms notdoms : option (list N)) : N :=
-  let a := N.lxor (5408 * 33) mask in
-  let a := id_str a modifier in
-  let a := id_hashes a doms in
-  let a := id_hashes a notdoms in
-  let a := id_str a filter in
-  id_str a hostname.
+  fold_left id_step (id_symbols modifier filter hostname doms notdoms) (N.lxor (5408 * 33) mask).
